@@ -72,6 +72,19 @@ CHECKS['C04'] = dict(cat='other', engine='symnp',
          'indexed by the view; IndexedData values/masks equal the parent slice, also after indices are reassigned.', ref='5/C04',
     note=NOTE_SYM + '; affine coordinates with listed matrices (symbolic matrices are C15); categorical values are concrete strings')
 
+CHECKS['C10'] = dict(cat='other', engine='symnp',
+    technique='symbolic execution of the real statistic/histogram code on symbolic values, masks and ranges + SMT equivalence with the textbook definition',
+    text='Data.compute_statistic (all six statistics, every axis subset, views with positive steps / negative starts / integers, '
+         'no / opaque-mask / range / slice / pixel / empty selections, finite and positive filters, chunk limits that force the '
+         'chunked path) and compute_histogram (1-d and 2-d, weights, reversed ranges, selections) are executed on arrays whose '
+         'values (NaN/inf included), masks and range ends are solver variables; the mask bounding-box logic forks under solver '
+         'control; z3 proves every result element equal to the NaN-aware definition over the full array and the bin totals '
+         'equal to the in-range count.', ref='5/C10',
+    note=NOTE_SYM + '; S-hist: fast_histogram kernels replaced by floor((x-lo)/(hi-lo)*n) with a double-precision guard at the '
+         'upper edge (values closer than a quarter ulp to it are the edge); S-nextafter/S-spacing: one ulp is a fresh value in '
+         '[|x|2^-53, |x|2^-52]; values within 1e-9 of the width of an interior bin edge (but not on it) are outside the claim; '
+         'log-space histograms and random_subset are outside the claim')
+
 NOT_YET = {}
 
 NOT_APPLICABLE = {
